@@ -11,7 +11,7 @@ EXPLANATION = ('Inductive argument over the pipeline, each step a static rule: U
                'handed back to the caller (returned, appended to a MultiSubscription that the operator returns, or stored in a shared cell '
                'that the operator returns); U2 unsubscribe() of every composite subscription unsubscribes each part; U3 a subscriber\'s '
                'unsubscribe empties its observer slot; U4 task cancellation is atomic with running (same rule as C19.H3); U6 a shared observer slot delivers only while holding its cell guard, so unsubscribe (same cell) cannot return while a notification is in flight; U5 a late addition '
-               'to an unsubscribed composite is unsubscribed (same rule as C17.K2); U7 where an operator hands back a pair of its source subscription and a re-fillable handle cell (MutRc/MutArc<Option<handle>>, refilled by every next()), the pair tears the source down first, so no item can arm a fresh timer after the cell was emptied; U8 parts leave a MultiSubscription only through unsubscribe (same rule as C17.K6). Declined: lock-level interleavings beyond U6; virtual-time positions '
+               'to an unsubscribed composite is unsubscribed (same rule as C17.K2); U7 where an operator hands back a pair of its source subscription and a re-fillable handle cell (MutRc/MutArc<Option<handle>>, refilled by every next()), the pair tears the source down first, so no item can arm a fresh timer after the cell was emptied; U8 parts leave a MultiSubscription only through unsubscribe (same rule as C17.K6); U9 a stored task handle is overwritten only when absent, closed or cancelled (same rule as C19.H8). Declined: lock-level interleavings beyond U6; virtual-time positions '
                'of the cut are irrelevant to a per-function invariant.')
 ASSUMPTIONS = ['a released resource (emptied slot, cancelled task) delivers nothing: C01.P3, C19.H3']
 
@@ -40,6 +40,8 @@ def check(cx):
     if not cx.control:
         for f in c17.k6(cx):
             res.append(Finding(ID, 'U8', f.key, f.ok, f.msg, f.loc, f.witness))
+        for f in c19.h8(cx):
+            res.append(Finding(ID, 'U9', f.key, f.ok, f.msg, f.loc, f.witness))
     return res
 
 
